@@ -5,6 +5,7 @@ import pickletools
 
 from . import e1, e3, refvm
 from .asm import strip_frames
+from .watchdog import Timeout, limit
 
 
 def variants(data, syms):
@@ -56,8 +57,9 @@ def _base(item):
         term = e1.Term(_Cfg(prop), (f"{tag}:{vtag}",), vdata)
         for orc in oracles:
             try:
-                orc(term, out)
-            except Exception as e:  # noqa: BLE001
+                with limit(120):
+                    orc(term, out)
+            except (Exception, Timeout) as e:  # noqa: BLE001
                 e1._unexpected(_Cfg(prop), out, e, [f"{tag}:{vtag}"], vdata, len(vdata))
     return out
 
